@@ -20,6 +20,9 @@ def scenarios(ctx: Ctx) -> list:
 
 
 def run(ctx: Ctx) -> None:
+    # the thread-based browser with a listener that is slow, real threads (props/syncapi.py, Trace_SyncApi.tla)
+    from props import syncapi
+    syncapi.run(ctx, 'C04')
     from props import cachemodel as cm
     mscs, by_id = cm.scenarios(ctx, ctx.pick(400, 6000), 'c04')
     traces = run_family(ctx, 'C04', scenarios(ctx) + mscs, {})
